@@ -9,6 +9,7 @@ Local Open Scope nat_scope.
 Definition eev_eqb (a b : eev) : bool :=
   match a, b with
   | ER i, ER j => Nat.eqb i j
+  | EE i, EE j => Nat.eqb i j
   | EY, EY => true
   | ES, ES => true
   | EX x, EX y => String.eqb x y
@@ -23,29 +24,30 @@ Definition corr_lazy (c : lcase) : bool :=
   list_eqb eev_eqb (c_ctor c) (ctrace (c_eager c) (c_srcs c)) &&
   list_eqb eev_eqb (c_pull c) (if c_eager c then [] else ptrace (c_first c) (c_rest c) (c_srcs c) (c_k c)).
 
-(* need of a stage on source i when it is the first of the pipeline / on its input otherwise *)
-Definition sneed (g : stage) (i : nat) : nat -> nat :=
+(* need of a stage, counting the sources selected by c (as first stage of a pipeline);
+   a later stage reads its single input: c = every *)
+Definition sneedc (g : stage) (c : nat -> bool) : nat -> nat :=
   match g with
-  | GMealy | GTakeWhile _ | GPar _ | GCycle => if Nat.eqb i 0 then need_id else fun _ => 0
-  | GZip order => need_zip order i
-  | GFilter m r => if Nat.eqb i 0 then need_filter_mod m r else fun _ => 0
-  | GSkip n => if Nat.eqb i 0 then need_skip n else fun _ => 0
-  | GLimit n => if Nat.eqb i 0 then need_limit n else fun _ => 0
-  | GChain order => need_chain order i
-  | GPad l _ => if Nat.eqb i 0 then need_pad l else fun _ => 0
-  | GBlocks size hop => if Nat.eqb i 0 then need_blocks size hop else fun _ => 0
-  | GTee n sched => if Nat.eqb i 0 then need_tee n sched else fun _ => 0
-  | GOla _ hop _ => if Nat.eqb i 0 then need_ola hop else fun _ => 0
+  | GMealy | GTakeWhile _ | GPar _ | GCycle | GZcross _ => one_src c need_id
+  | GZip order => need_zipc c order
+  | GFilter m r => one_src c (need_filter_mod m r)
+  | GSkip n => one_src c (need_skip n)
+  | GLimit n => one_src c (need_limit n)
+  | GChain order => need_chainc c order
+  | GPad l _ => one_src c (need_pad l)
+  | GBlocks size hop => one_src c (need_blocks size hop)
+  | GBatched n => one_src c (need_blocks n n)
+  | GTee n sched => one_src c (need_tee n sched)
+  | GOla _ hop _ => one_src c (need_ola hop)
   | GResample order old new =>
-      if Nat.eqb i 0
-      then need_resample (rs_n0 order) (rs_idx0 order new) (rs_thr order new) (rs_stp old) (rs_one new)
-      else fun _ => 0
+      one_src c (need_resample (rs_n0 order) (rs_idx0 order new) (rs_thr order new) (rs_stp old) (rs_one new))
   end.
 
-Definition pneed (first : stage) (rest : list stage) (i : nat) (k : nat) : nat :=
-  sneed first i (fold_right (fun g k' => sneed g 0 k') k rest).
+Definition pneedc (first : stage) (rest : list stage) (c : nat -> bool) (k : nat) : nat :=
+  sneedc first c (fold_right (fun g k' => sneedc g every k') k rest).
+Definition pneed (first : stage) (rest : list stage) (i : nat) : nat -> nat := pneedc first rest (only i).
 
-Fixpoint etr_ok (i : nat) (need : nat -> nat) (r y : nat) (t : list eev) : bool :=
+Fixpoint etr_ok (i : nat -> bool) (need : nat -> nat) (r y : nat) (t : list eev) : bool :=
   match t with
   | [] => true
   | ER j :: t' => (bump i j r <=? need (S y)) && etr_ok i need (bump i j r) y t'
@@ -55,11 +57,11 @@ Fixpoint etr_ok (i : nat) (need : nat -> nat) (r y : nat) (t : list eev) : bool 
   end.
 
 Definition no_reads (t : list eev) : bool :=
-  forallb (fun e => match e with ER _ => false | _ => true end) t.
+  forallb (fun e => match e with ER _ | EE _ => false | _ => true end) t.
 
-(* the property on the implementation's observation: nothing read at construction, and
+(* the property on the implementation's observation: the source is not touched at construction, and
    every read within the stated need of the output being asked for, on every source *)
 Definition holds_lazy (c : lcase) : bool :=
   no_reads (c_ctor c) &&
-  forallb (fun i => etr_ok i (pneed (c_first c) (c_rest c) i) 0 0 (c_pull c))
+  forallb (fun i => etr_ok (only i) (pneed (c_first c) (c_rest c) i) 0 0 (c_pull c))
           (seq 0 (List.length (c_srcs c))).
